@@ -1,4 +1,4 @@
-use super::swift_utils::{parse_amount, parse_currency};
+use super::swift_utils::{ensure_ascii, parse_amount, parse_currency};
 use crate::errors::ParseError;
 use crate::traits::SwiftField;
 use serde::{Deserialize, Serialize};
@@ -33,6 +33,8 @@ impl SwiftField for Field34F {
     where
         Self: Sized,
     {
+        ensure_ascii(input, "Field 34F")?;
+
         // Field34F format: 3!a[1!a]15d (currency + optional indicator + amount)
         if input.len() < 4 {
             // Minimum: 3 chars currency + 1 digit amount
